@@ -7,6 +7,18 @@ Workload B (fault enumeration): a real Operator on the smallest reactor with the
 interfaces; for each run layout EVERY (hook, stack position, cycle, node) is used once as the point where an interface raises; the
 .h5 left in the working directory is then opened with plain h5py and with Database('r') and compared with what an independent
 scheduler says was completed before the failure, plus the state recorded at the failure.
+
+Added after the independent review (each closes a demonstrated gap):
+* histories of None-default block parameters assigned on a random half of the blocks, and of a never-assigned parameter ("or the default
+  if unset"): an unset value must come back as None / the default, and is judged (A.history.unset-value-expected);
+* by-location histories of blocks (two levels below the core: Layout.computeAncestors with depth > 1), with distinct values per assembly;
+* restart runs through MainInterface + DatabaseInterface.prepRestartRun from the .h5 of a completed run: the new file holds the source's
+  earlier groups byte-for-byte (independent h5py walk) and equal to the states recorded in the source run, then the new nodes, equal to
+  the states recorded at their writes; also with a failure right after the merge or around the first node;
+* `with Database(f, "w")` left by an exception / normally (Database.__exit__): file in the working directory, snapshot loadable,
+  successfulCompletion False / True;
+* a split keeps the time node (only the cycle is renumbered); parameters the loader recomputes are no longer dropped at any size: they
+  are compared at the recomputed tolerance, and the ones C04 records as stale-at-write against a load made right after the write.
 """
 import os
 import random
@@ -16,18 +28,29 @@ LEVEL = "fault_enumeration"
 RULE = (
     "A: generated small hex reactors x event sequences of 15-40 events (mutations: block/assembly/core parameter assignments, composition "
     "edits, assembly swaps; writes at random (cycle<100,node<100[,label]); loads of random written keys; listing; history queries by identity "
-    "and by location over random step subsets; mergeHistory at random restart points; splitDatabase with random keep sets; re-writes). "
+    "and by location (assemblies and blocks) over random step subsets, including None-default block parameters assigned on a random half "
+    "of the blocks and a never-assigned parameter; mergeHistory at random restart points; splitDatabase with random keep sets; re-writes; "
+    "one write-mode `with Database(f, 'w')` block left by an exception and one left normally per history). "
     "B: run layouts (cycles 1-3 x burn steps 0-3, tight coupling on/off) x every (hook in BOL/BOC/EveryNode/Coupled/EOC/EOL, position before/after "
-    "the database interface, cycle, node) enumerated exhaustively, one injected failure per run, + one failure-free run per layout. "
-    "A case = one judged read (A) or one run (B); distinct by (event kind, key) / (layout, failure point)."
+    "the database interface, cycle, node) enumerated exhaustively, one injected failure per run, + one failure-free run per layout; "
+    "+ restart runs (MainInterface + DatabaseInterface.prepRestartRun, settings reloadDBName/startCycle/startNode/loadStyle fromDB) from the "
+    ".h5 of a completed run of the same layout at restart points (quick: 2, thorough: every node but the first of every layout), each once "
+    "failure-free and once with a failure right after the merge (BOL) or around the first node. "
+    "A case = one judged read (A) or one run (B); distinct by (event kind, key) / (layout, restart point, failure point)."
 )
 EXHAUSTIVE = {"quick": True, "thorough": True}
-EXHAUSTIVE_PART = "workload B: all failure points of each listed layout (quick 2 layouts, thorough 12)"
+EXHAUSTIVE_PART = "workload B: all failure points of each listed layout (quick 2 layouts, thorough 12); thorough: all restart points of each layout"
 TOLERANCES = {"recomputed_rel": 1e-9}
 FLOORS = {"quick": {"A.load-vs-model": 100, "A.listing": 15, "A.history": 30, "A.history-by-location": 15, "A.merge": 15, "A.split": 12, "A.rewrite-refused": 15, "A.identity.fresh-object": 8, "A.history.step-before-object-existed": 2,
-                    "B.run-with-failure": 40, "B.run-complete": 2, "B.snapshot-compared": 100, "hook:Database.writeToDB": 200},
+                    "A.history-by-location.below-assembly-level": 8, "A.history.unset-value-expected": 100, "A.history.never-assigned-parameter": 50, "A.twin-load-at-write": 50,
+                    "A.write-context-exit.exception": 12, "A.write-context-exit.clean": 12,
+                    "B.run-with-failure": 40, "B.run-complete": 1, "B.snapshot-compared": 100, "hook:Database.writeToDB": 200,
+                    "B.restart-complete": 1, "B.restart-with-failure": 1, "B.restart.merged-group-compared": 6, "hook:DatabaseInterface.prepRestartRun": 2},
           "thorough": {"A.load-vs-model": 1500, "A.listing": 200, "A.history": 400, "A.history-by-location": 200, "A.merge": 200, "A.split": 150, "A.rewrite-refused": 200, "A.identity.fresh-object": 120, "A.history.step-before-object-existed": 30,
-                       "B.run-with-failure": 250, "B.run-complete": 12, "B.snapshot-compared": 1200, "hook:Database.writeToDB": 3000}}
+                       "A.history-by-location.below-assembly-level": 100, "A.history.unset-value-expected": 1000, "A.history.never-assigned-parameter": 500, "A.twin-load-at-write": 600,
+                       "A.write-context-exit.exception": 160, "A.write-context-exit.clean": 160,
+                       "B.run-with-failure": 250, "B.run-complete": 6, "B.snapshot-compared": 1200, "hook:Database.writeToDB": 3000,
+                       "B.restart-complete": 25, "B.restart-with-failure": 25, "B.restart.merged-group-compared": 100, "hook:DatabaseInterface.prepRestartRun": 50}}
 TIMEOUT = {"quick": 900, "thorough": 7200}
 
 LAYOUTS_QUICK = [(2, 2, False), (2, 1, True)]
@@ -47,6 +70,15 @@ def failure_points(ncyc, bsteps, coupled):
     return pts
 
 
+RESTARTS_QUICK = [((2, 2, False), (1, 1)), ((2, 1, True), (1, 0))]
+RESTART_FAILURES = [("EveryNode", "post"), ("BOL", "pre"), ("EveryNode", "pre")]
+
+
+def restart_points(ncyc, bsteps):
+    """every node of the layout but the very first (there is nothing before (0,0) to restart from)"""
+    return [(c, n) for c in range(ncyc) for n in range(bsteps + 1)][1:]
+
+
 def plan(tier, seed):
     q = tier == "quick"
     out = [{"name": "hist%d" % i, "kind": "A", "n": 3 if q else 40, "events": 30} for i in range(8)]
@@ -56,9 +88,16 @@ def plan(tier, seed):
         runs.append([lay, None])
         for p in failure_points(*lay):
             runs.append([lay, p])
+    restarts = RESTARTS_QUICK if q else [(lay, st) for lay in LAYOUTS_THOROUGH for st in restart_points(lay[0], lay[1])]
+    rruns = []
+    for i, (lay, st) in enumerate(restarts):
+        rruns.append([lay, None, st])
+        f = RESTART_FAILURES[i % len(RESTART_FAILURES)]
+        rruns.append([lay, list(f) + (list(st) if f[0] == "EveryNode" else []), st])
     nsh = 8
     for i in range(nsh):
-        out.append({"name": "crash%d" % i, "kind": "B", "runs": runs[i::nsh]})
+        # restart cases cost two runs each unless the source run of the layout is already cached in the shard: deal them from the other end
+        out.append({"name": "crash%d" % i, "kind": "B", "runs": runs[i::nsh] + rruns[(nsh - 1 - i)::nsh]})
     return out
 
 
@@ -76,11 +115,16 @@ def run_shard(spec, rec):
                 rec.crash("history-case(harness?)", e, {"case": i})
     else:
         H = CrashHarness()
-        for lay, point in spec["runs"]:
+        for run in spec["runs"]:
+            lay, point = run[0], run[1]
             try:
-                crash_case(rec, H, tuple(lay), tuple(point) if point else None)
+                if len(run) > 2:
+                    restart_case(rec, H, tuple(lay), tuple(run[2]), tuple(point) if point else None)
+                else:
+                    crash_case(rec, H, tuple(lay), tuple(point) if point else None)
             except Exception as e:
-                rec.crash("crash-case(harness?)", e, {"layout": lay, "failure": point})
+                rec.crash("crash-case(harness?)", e, {"layout": lay, "failure": point, "restart": run[2] if len(run) > 2 else None})
+        H.cleanup()
 
 
 # ----------------------------------------------------------------------------- write log (boundary instrumentation)
@@ -97,38 +141,73 @@ def install_write_hook():
         WRITES.append((id(db), int(r.p.cycle), int(r.p.timeNode), label or "", obs.obs(r, derived=False)))
 
     hooks.wrap(Database, "writeToDB", post=post)
+    from armi.bookkeeping.db.databaseInterface import DatabaseInterface
+
+    hooks.wrap(DatabaseInterface, "prepRestartRun")  # reachability counter only
 
 
 def gname(c, n, label=""):
     return "c%02dn%02d%s" % (c, n, label or "")
 
 
-def cmp_obs(rec, keyprefix, a, b, w, ignore=("cycle", "timeNode")):
+# Parameters that the loader recomputes from the loaded composition / assemblies (Core.processLoading; component volume/area caches).
+# They are compared at TOLERANCES["recomputed_rel"], like every recomputed value.  For STALE_AT_WRITE, C04 has the known finding
+# "param-recomputed-on-load" (a value that was stale when written does not come back); C06 does not re-report that, but it does not drop
+# those columns either: a later load must give what a load made right after the write gave (`twin`), i.e. the snapshot is still a
+# function of the state at the time of its write only.  Without a twin (workload B, where nothing makes them stale) they are compared
+# with the recorded state like everything else.  (Self-contained on purpose: no import from checks.c04.)
+RECOMPUTED_ON_LOAD = ("kgHM", "kgFis", "puFrac", "maxAssemNum", "volume", "area")
+STALE_AT_WRITE = ("kgHM", "kgFis", "puFrac", "maxAssemNum")
+
+
+def _close(a, b):
+    if isinstance(a, bool) or isinstance(b, bool) or not isinstance(a, (int, float)) or not isinstance(b, (int, float)):
+        return False
+    return a == b or (a != a and b != b) or abs(a - b) <= TOLERANCES["recomputed_rel"] * max(abs(a), abs(b))
+
+
+def cmp_obs(rec, keyprefix, a, b, w, ignore=("cycle", "timeNode"), twin=None):
     from vlib import obs
 
     seen = set()
-    for k, m in obs.diff(a, b, limit=60, ignore_params=ignore):
+
+    def report(k, m):
+        if k not in seen:
+            seen.add(k)
+            rec.violation("%s/%s" % (keyprefix, k), m, w)
+
+    for k, m in obs.diff(a, b, limit=400, ignore_params=tuple(ignore) + RECOMPUTED_ON_LOAD):
         k = classify(k, m)
-        if k is None or k in seen:
-            continue
-        seen.add(k)
-        rec.violation("%s/%s" % (keyprefix, k), m, w)
+        if k is not None:
+            report(k, m)
+    if len(a) == len(b):
+        for i, (x, y) in enumerate(zip(a, b)):
+            for name in RECOMPUTED_ON_LOAD:
+                if name in ignore or (name not in x["params"] and name not in y["params"]):
+                    continue
+                u, v = x["params"].get(name, "<absent>"), y["params"].get(name, "<absent>")
+                if obs.values_equal(u, v) or _close(u, v):
+                    continue
+                where = "%s %s: parameter %s differs: %r vs %r" % (x["cls"], x["name"], name, u, v)
+                if twin is not None and len(twin) == len(b) and name in STALE_AT_WRITE:
+                    rec.hit("A.recomputed-param-vs-load-made-at-write-time")
+                    t = twin[i]["params"].get(name, "<absent>")
+                    if not (obs.values_equal(t, v) or _close(t, v)):
+                        report("recomputed-param-differs-from-load-made-right-after-the-write/%s" % name, where + "; the load made right after the write gave %r" % (t,))
+                else:
+                    report("param/%s/%s" % (x["cls"], name), where)
     return not seen
 
 
-KNOWN_C04 = ("unset-dimension-reads-zero/modArea", "param-recomputed-on-load", "nodefault-param-partially-assigned-column-dropped")
-
-
 def classify(key, msg):
-    """Differences that belong to C04's round-trip findings are not re-reported here (C06 judges isolation/completeness)."""
-    from checks import c04
-
-    k = c04.classify(key, msg, None)
-    if k is None:
+    """C04's two recorded round-trip findings on stored values are not re-reported here (C06 judges isolation/completeness):
+    'unset-dimension-reads-zero/modArea' and 'nodefault-param-partially-assigned-column-dropped'."""
+    parts = key.split("/")
+    if parts[0] in ("param", "dimension") and parts[-1] == "modArea" and ("None" in msg and (" 0" in msg or "'0'" in msg)):
         return None
-    if any(k.startswith(x) for x in KNOWN_C04):
+    if parts[0] == "param" and ("('raises', 'ParameterError')" in msg or "('unset',)" in msg):
         return None
-    return k
+    return key
 
 
 # ============================================================================= workload A
@@ -136,6 +215,7 @@ def history_case(rec, rng, nevents, case):
     import numpy as np
 
     from armi.bookkeeping.db.database import Database
+    from armi.reactor import parameters
     from vlib import gen, obs
 
     cspec = gen.core_spec(rng, rings=2, symmetry=rng.choice(["third periodic", "full"]), ndesigns=rng.randint(1, 2), nblocks=rng.randint(1, 3))
@@ -145,19 +225,28 @@ def history_case(rec, rng, nevents, case):
     db = Database(fname, "w")
     db.open()
     model = {}      # (c,n,label) -> obs at write
-    values = {}     # (c,n) -> {serial: {param: value}} for history queries
-    places = {}     # (c,n) -> {assembly indices (i,j): serial}
+    twins = {}      # (c,n,label) -> obs of a load made right after the write (see STALE_AT_WRITE)
+    values = {}     # (c,n) -> {(type, serial): {param: value}} for history queries
+    places = {}     # (c,n) -> {(type, complete indices (i,j,k)): serial}
     log = []
     w = {"case": case, "log": log}
     PARAMS_B = ["power", "flux", "pdens", "percentBu"]
-    PARAMS_A = ["chargeTime", "multiplicity"] if False else ["chargeTime"]
     counter = [0]
+    # "or the default if unset": scalar block parameters whose default is None, assigned on a random half of the blocks only, and one
+    # persistent float parameter that nothing in this process has assigned (so the database holds no column for it)
+    bdefs = {pd.name: pd for pd in r.core.getBlocks()[0].p.paramDefs}
+    PARAMS_N = [p for p in ("THhotChannelCladODT", "THhotChannelFuelODT", "TH2SigmaCladIDT") if p in bdefs and bdefs[p].default is None and bdefs[p].saveToDB]
+    unset = sorted(n_ for n_, pd in bdefs.items() if pd.saveToDB and type(pd.default) is float and pd.assigned == parameters.NEVER and n_ not in PARAMS_B)
+    PARAM_U = unset[0] if unset else None
+    if len(PARAMS_N) < 3:
+        rec.skip("harness: fewer than 3 None-default scalar block parameters found (%s)" % PARAMS_N)
+    BLOCK_PARAMS = PARAMS_B + PARAMS_N + ([PARAM_U] if PARAM_U else [])
 
     # identity: a serial number recorded in this database belongs to one logical object for ever
     owners = {int(o.p.serialNum): id(o) for a_ in r.core for o in [a_] + list(a_)}
 
     def mutate():
-        k = rng.choice(["block-param", "block-param", "assembly-param", "core-param", "ndens", "swap", "new-assembly"])
+        k = rng.choice(["block-param", "block-param", "block-none-param", "assembly-param", "core-param", "ndens", "swap", "new-assembly"])
         counter[0] += 1
         if k == "new-assembly":
             # refuelling: a fresh assembly of the same design replaces one in the core (the old one is purged)
@@ -177,9 +266,14 @@ def history_case(rec, rng, nevents, case):
         elif k == "block-param":
             for b in rng.sample(r.core.getBlocks(), max(1, len(r.core.getBlocks()) // 2)):
                 b.p[rng.choice(PARAMS_B)] = float(counter[0]) + rng.random()
+        elif k == "block-none-param" and PARAMS_N:
+            # a random half of the blocks gets a value; the others keep what they have (None until their first turn)
+            p = rng.choice(PARAMS_N)
+            for b in rng.sample(r.core.getBlocks(), max(1, len(r.core.getBlocks()) // 2)):
+                b.p[p] = float(counter[0]) + rng.random()
         elif k == "assembly-param":
             for a in r.core:
-                a.p.chargeTime = float(counter[0])
+                a.p.chargeTime = float(counter[0]) + rng.random()  # distinct per assembly: histories must tell assemblies apart
         elif k == "core-param":
             r.core.p.keff = 1.0 + counter[0] * 1e-3
         elif k == "ndens":
@@ -197,12 +291,17 @@ def history_case(rec, rng, nevents, case):
 
     def snapshot_values():
         vals = {}
-        for o in r.core.getBlocks():
-            vals[("HexBlock", int(o.p.serialNum))] = {p: o.p[p] for p in PARAMS_B}
+        loc = {}
         for a in r.core:
             vals[("HexAssembly", int(a.p.serialNum))] = {"chargeTime": a.p.chargeTime}
-        loc = {tuple(int(x) for x in a.spatialLocator.getCompleteIndices()[:2]): int(a.p.serialNum) for a in r.core}
+            loc[("HexAssembly", where(a))] = int(a.p.serialNum)
+            for o in a:
+                vals[("HexBlock", int(o.p.serialNum))] = {p: o.p[p] for p in BLOCK_PARAMS}
+                loc[("HexBlock", where(o))] = int(o.p.serialNum)
         return vals, loc
+
+    def where(o):
+        return tuple(int(x) for x in o.spatialLocator.getCompleteIndices())
 
     for ev in range(nevents):
         kind = rng.choice(["mutate", "mutate", "write", "write", "write-label", "load", "load", "list", "history", "history", "history-loc", "merge", "split", "rewrite"])
@@ -222,6 +321,8 @@ def history_case(rec, rng, nevents, case):
                 if len(WRITES) != nw + 1:
                     rec.violation("monitor/write-not-observed", "writeToDB hook did not fire", w)
                 model[(c, n, label)] = obs.obs(r)
+                twins[(c, n, label)] = obs.obs(db.load(c, n, cs=cs, bp=bp, statePointName=label or None), derived=False)  # (only its parameters are used)
+                rec.hit("A.twin-load-at-write")
                 if not label:
                     values[(c, n)], places[(c, n)] = snapshot_values()
                 log.append("write:%s" % gname(c, n, label))
@@ -229,7 +330,7 @@ def history_case(rec, rng, nevents, case):
                 key = rng.choice(sorted(model))
                 rec.hit("A.load-vs-model")
                 r2 = db.load(key[0], key[1], cs=cs, bp=bp, statePointName=key[2] or None)
-                ok = cmp_obs(rec, "A/load-differs-from-state-at-write", model[key], obs.obs(r2), dict(w, key=gname(*key)), ignore=())
+                ok = cmp_obs(rec, "A/load-differs-from-state-at-write", model[key], obs.obs(r2), dict(w, key=gname(*key)), ignore=(), twin=twins.get(key))
                 log.append("load:%s" % gname(*key))
                 rec.case(["A", "load", len(model), len(log) % 7], sample={"log": list(log)} if case == 0 and ok and len(log) > 12 and rng.random() < .2 else None)
             elif kind == "list":
@@ -254,14 +355,18 @@ def history_case(rec, rng, nevents, case):
                     continue
                 steps = rng.sample(steps_all, rng.randint(1, len(steps_all)))
                 byloc = kind == "history-loc"
-                if byloc:
+                if byloc and rng.random() < .4:
                     comps = rng.sample(list(r.core), min(len(r.core), 2))
-                    params = ["chargeTime"]
                 else:
-                    comps = rng.sample(r.core.getBlocks(), min(len(r.core.getBlocks()), 3)) if rng.random() < .7 else list(r.core)[:2]
-                    params = rng.sample(PARAMS_B, 2) if type(comps[0]).__name__ == "HexBlock" else ["chargeTime"]
+                    comps = rng.sample(r.core.getBlocks(), min(len(r.core.getBlocks()), 3)) if byloc or rng.random() < .7 else rng.sample(list(r.core), min(len(r.core), 2))
+                if type(comps[0]).__name__ == "HexBlock":
+                    params = rng.sample(PARAMS_B, 2) + ([rng.choice(PARAMS_N)] if PARAMS_N else []) + ([PARAM_U] if PARAM_U and rng.random() < .5 else [])
+                else:
+                    params = ["chargeTime"]
                 now = (int(r.p.cycle), int(r.p.timeNode))
                 rec.hit("A.history-by-location" if byloc else "A.history")
+                if byloc and type(comps[0]).__name__ == "HexBlock":
+                    rec.hit("A.history-by-location.below-assembly-level")
                 hist = (db.getHistoriesByLocation if byloc else db.getHistories)(comps, params, list(steps))
                 for comp in comps:
                     tname = type(comp).__name__
@@ -269,8 +374,7 @@ def history_case(rec, rng, nevents, case):
                         got = hist[comp][p]
                         for st in steps:
                             if byloc:
-                                ij = tuple(int(x) for x in comp.spatialLocator.getCompleteIndices()[:2])
-                                ser = places[st].get(ij)
+                                ser = places[st].get((tname, where(comp)))
                                 if ser is None:
                                     continue
                             else:
@@ -288,9 +392,11 @@ def history_case(rec, rng, nevents, case):
                                 break
                             g = got[st]
                             if exp is None:
-                                continue
-                            if not (g == exp or (isinstance(g, float) and abs(g - exp) <= 1e-12 * abs(exp))):
-                                rec.violation("A/history-value-differs/%s" % ("by-location" if byloc else "by-identity"),
+                                rec.hit("A.history.unset-value-expected")
+                            elif p == PARAM_U:
+                                rec.hit("A.history.never-assigned-parameter")
+                            if not (g is None if exp is None else (g == exp or (isinstance(g, float) and isinstance(exp, float) and abs(g - exp) <= 1e-12 * abs(exp)))):
+                                rec.violation("A/history-value-differs/%s%s" % ("by-location" if byloc else "by-identity", "/unset-on-this-object" if exp is None else ""),
                                               "history of %s(serial %d).%s at step %s = %r, state at that write had %r" % (tname, ser, p, st, g, exp), dict(w, steps=steps))
                                 break
                         extra = [s for s in got if s not in steps and s != now]
@@ -316,7 +422,7 @@ def history_case(rec, rng, nevents, case):
                         rec.violation("A/merge-copied-wrong-steps", "merge up to %s copied %s, expected %s" % (gname(cut[0], cut[1]), names, [gname(*k) for k in exp]), w)
                     for k in rng.sample(exp, min(2, len(exp))):
                         r3 = out.load(k[0], k[1], cs=cs, bp=bp, statePointName=k[2] or None)
-                        cmp_obs(rec, "A/merged-snapshot-differs", model[k], obs.obs(r3), dict(w, key=gname(*k)), ignore=())
+                        cmp_obs(rec, "A/merged-snapshot-differs", model[k], obs.obs(r3), dict(w, key=gname(*k)), ignore=(), twin=twins.get(k))
                 finally:
                     out.close()
                     _rm(out.fileName)
@@ -345,7 +451,7 @@ def history_case(rec, rng, nevents, case):
                         rec.violation("A/split-kept-wrong-steps", "split keeping %s holds %s, expected %s" % ([gname(*k) for k in keep], names, exp), w)
                     for k in rng.sample(keep, min(2, len(keep))):
                         r3 = sdb.load(k[0] - minc, k[1], cs=cs, bp=bp)
-                        cmp_obs(rec, "A/split-snapshot-differs", model[k], obs.obs(r3), dict(w, key=gname(*k)))
+                        cmp_obs(rec, "A/split-snapshot-differs", model[k], obs.obs(r3), dict(w, key=gname(*k)), ignore=("cycle",), twin=twins.get(k))  # the time node is kept
                         if int(r3.p.cycle) != k[0] - minc:
                             rec.violation("A/split-cycle-not-renumbered", "kept step %s loads with r.p.cycle=%s, documented renumbering gives %d" % (gname(*k), r3.p.cycle, k[0] - minc), w)
                     import h5py
@@ -377,7 +483,7 @@ def history_case(rec, rng, nevents, case):
                 except Exception:
                     rec.reject("rewrite of an existing snapshot refused")
                     r2 = db.load(key[0], key[1], cs=cs, bp=bp, statePointName=key[2] or None)
-                    cmp_obs(rec, "A/refused-rewrite-changed-snapshot", model[key], obs.obs(r2), dict(w, key=gname(*key)), ignore=())
+                    cmp_obs(rec, "A/refused-rewrite-changed-snapshot", model[key], obs.obs(r2), dict(w, key=gname(*key)), ignore=(), twin=twins.get(key))
                 log.append("rewrite:%s" % gname(*key))
                 rec.case(["A", "rewrite"])
         except Exception as e:
@@ -387,11 +493,68 @@ def history_case(rec, rng, nevents, case):
         try:
             rec.hit("A.load-vs-model")
             r2 = db.load(key[0], key[1], cs=cs, bp=bp, statePointName=key[2] or None)
-            cmp_obs(rec, "A/load-differs-from-state-at-write(final)", model[key], obs.obs(r2), dict(w, key=gname(*key)), ignore=())
+            cmp_obs(rec, "A/load-differs-from-state-at-write(final)", model[key], obs.obs(r2), dict(w, key=gname(*key)), ignore=(), twin=twins.get(key))
         except Exception as e:
             rec.crash("A/final-load", e, w)
     db.close()
     _rm(fname)
+    for raising in (True, False):
+        try:
+            write_context_case(rec, rng, r, cs, bp, case, raising)
+        except Exception as e:
+            rec.crash("A/write-context(harness?)", e, {"case": case, "raising": raising})
+
+
+def write_context_case(rec, rng, r, cs, bp, case, raising):
+    """`with Database(f, "w") as db: db.writeToDB(r)`, left by an exception or normally: the file is in the working directory, holds the
+    snapshot, and is marked successfully completed exactly when no exception went through the `with` (database.py __exit__)."""
+    import h5py
+
+    from armi.bookkeeping.db.database import Database
+    from vlib import obs
+
+    c, n = rng.randint(0, 4), rng.randint(0, 5)
+    r.p.cycle, r.p.timeNode = c, n
+    r.sort()
+    state = obs.obs(r)
+    fn = "ctx-%d-%d-%d.h5" % (case, int(raising), rng.randrange(10 ** 6))
+    how = "exception" if raising else "clean"
+    w = {"case": case, "with-block-left-by": how, "snapshot": gname(c, n)}
+    raised = False
+    try:
+        with Database(fn, "w") as d2:
+            d2.writeToDB(r)
+            if raising:
+                raise Injected("inside `with Database(f, 'w')`")
+    except Injected:
+        raised = True
+    except Exception as e:
+        rec.crash("A/write-context/" + how, e, w)
+        _rm(fn)
+        return
+    rec.hit("A.write-context-exit." + how)
+    try:
+        if raised != raising:
+            rec.violation("A/write-context/exception-swallowed", "the exception raised inside the with block did not come out of it", w)
+        if not os.path.exists(fn):
+            rec.violation("A/write-context/no-file-in-working-directory/%s" % how, "after a with block left by %s there is no %s in the working directory" % (how, fn), w)
+            return
+        with h5py.File(fn, "r") as f:
+            names = sorted(k for k in f.keys() if k != "inputs")
+            flag = bool(f.attrs["successfulCompletion"])
+        if names != [gname(c, n)]:
+            rec.violation("A/write-context/snapshots/%s" % how, "file holds %s, written: [%s]" % (names, gname(c, n)), w)
+        if flag != (not raising):
+            rec.violation("A/write-context/successfulCompletion-flag/%s" % ("aborted-block-marked-successful" if raising else "clean-block-not-marked-successful"),
+                          "successfulCompletion=%s after a with block left by %s" % (flag, how), w)
+        if gname(c, n) in names:
+            with Database(fn, "r") as d3:
+                o2 = obs.obs(d3.load(c, n, cs=cs, bp=bp))
+            # (kgHM & co., see STALE_AT_WRITE, may be stale in `state`; they are judged against a twin load in the history itself)
+            cmp_obs(rec, "A/write-context/snapshot-differs-from-state-at-write", state, o2, w, ignore=STALE_AT_WRITE)
+    finally:
+        _rm(fn)
+    rec.case(["A", "write-context", how])
 
 
 def _rm(p):
@@ -462,7 +625,18 @@ def make_ifaces():
             self.addInterface(DatabaseInterface(self.r, self.cs))
             self.addInterface(Rec(self.r, self.cs, "post"))
 
-    return Op
+    from armi.bookkeeping.mainInterface import MainInterface
+
+    class RestartOp(Operator):
+        """the stock arrangement of a restart: the main interface first (it opens the database and calls prepRestartRun at BOL)"""
+
+        def createInterfaces(self):
+            self.addInterface(MainInterface(self.r, self.cs))
+            self.addInterface(Rec(self.r, self.cs, "pre"))
+            self.addInterface(DatabaseInterface(self.r, self.cs))
+            self.addInterface(Rec(self.r, self.cs, "post"))
+
+    return Op, RestartOp
 
 
 class CrashHarness:
@@ -471,8 +645,13 @@ class CrashHarness:
         from armi.tests import TEST_ROOT
 
         self.base = settings.Settings(os.path.join(TEST_ROOT, "smallestTestReactor/armiRunSmallest.yaml"))
-        self.Op = make_ifaces()
+        self.Op, self.RestartOp = make_ifaces()
         self.n = 0
+        self.sources = {}  # layout -> (file of a completed run, {group name: state recorded at its write}, {group name: digest})
+
+    def cleanup(self):
+        for fn, _bw, _dg in self.sources.values():
+            _rm(fn)
 
 
 def expected_groups(ncyc, bsteps, coupled, point):
@@ -510,25 +689,23 @@ def expected_groups(ncyc, bsteps, coupled, point):
     return done, cur
 
 
-def crash_case(rec, H, lay, point):
-    import h5py
-
-    from armi.bookkeeping.db.database import Database
+def run_once(H, lay, point, title, restart=None):
+    """One run of the real Operator (`with o: o.operate()`), failing at `point` if given. restart = (source .h5, startCycle, startNode).
+    Returns (aborted by the injected failure, the writeToDB calls observed); any other exception propagates."""
     from armi.reactor import blueprints, reactors
-    from vlib import obs
     from vlib.env import quiet
 
     ncyc, bsteps, coupled = lay
-    H.n += 1
-    title = "crash%d" % H.n
-    cs = H.base.modified(newSettings={"startCycle": 0, "startNode": 0, "nCycles": ncyc, "burnSteps": bsteps, "verbosity": "error", "db": True,
-                                      "tightCoupling": coupled, "cycleLength": 100.0})
+    new = {"startCycle": 0, "startNode": 0, "nCycles": ncyc, "burnSteps": bsteps, "verbosity": "error", "db": True,
+           "tightCoupling": coupled, "cycleLength": 100.0}
+    if restart:
+        new.update({"reloadDBName": os.path.abspath(restart[0]), "startCycle": restart[1], "startNode": restart[2], "loadStyle": "fromDB"})
+    cs = H.base.modified(newSettings=new)
     cs.caseTitle = title
-    w = {"layout": {"cycles": ncyc, "burnSteps": bsteps, "tightCoupling": coupled}, "failure": point}
     with quiet():
         bp = blueprints.loadFromCs(cs)
         r = reactors.factory(cs, bp)
-    o = H.Op(cs)
+    o = (H.RestartOp if restart else H.Op)(cs)
     STATE.update(fail=point, log=[], at_failure=None, coupled=coupled)
     nw0 = len(WRITES)
     aborted = False
@@ -539,10 +716,24 @@ def crash_case(rec, H, lay, point):
                 o.operate()
     except Injected:
         aborted = True
+    return aborted, WRITES[nw0:]
+
+
+def crash_case(rec, H, lay, point):
+    import h5py
+
+    from armi.bookkeeping.db.database import Database
+    from vlib import obs
+
+    ncyc, bsteps, coupled = lay
+    H.n += 1
+    title = "crash%d" % H.n
+    w = {"layout": {"cycles": ncyc, "burnSteps": bsteps, "tightCoupling": coupled}, "failure": point}
+    try:
+        aborted, writes = run_once(H, lay, point, title)
     except Exception as e:
         rec.crash("B/run", e, w)
         return
-    writes = WRITES[nw0:]
     fname = title + ".h5"
     if point is None:
         rec.hit("B.run-complete")
@@ -606,3 +797,159 @@ def crash_case(rec, H, lay, point):
     finally:
         _rm(fname)
     rec.case(["B", lay, point], sample=dict(w, expected=exp) if point and point[0] == "EveryNode" and point[1] == "post" and point[2:] == (0, 1) else None)
+
+
+# ----------------------------------------------------------------------------- restart runs (DatabaseInterface.prepRestartRun)
+def _h5norm(v):
+    import numpy as np
+
+    if isinstance(v, np.ndarray):
+        if v.dtype.kind == "O":
+            return ("O", v.shape, [_h5norm(x) for x in v.ravel().tolist()])
+        return (str(v.dtype), v.shape, v.tobytes())
+    if isinstance(v, np.generic):
+        return (str(v.dtype), (), v.tobytes())
+    return v
+
+
+def h5_digest(group):
+    """Independent h5py walk: everything stored under a time-step group (datasets with dtype, shape and bytes; attributes of every node)."""
+    import h5py
+
+    out = {"": {k: _h5norm(v) for k, v in group.attrs.items()}}
+
+    def visit(name, node):
+        d = {"@" + k: _h5norm(v) for k, v in node.attrs.items()}
+        if isinstance(node, h5py.Dataset):
+            d["data"] = _h5norm(node[()])
+        out[name] = d
+
+    group.visititems(visit)
+    return out
+
+
+def restart_source(rec, H, lay):
+    """A completed run of the layout, made once per shard: its file, the states recorded at its writes, the digest of every group."""
+    import h5py
+
+    if lay in H.sources:
+        return H.sources[lay]
+    H.n += 1
+    title = "source%d" % H.n
+    aborted, writes = run_once(H, lay, None, title)
+    rec.add("restart_source_runs")
+    fname = title + ".h5"
+    done, _cur = expected_groups(lay[0], lay[1], lay[2], None)
+    with h5py.File(fname, "r") as f:
+        names = sorted(k for k in f.keys() if k != "inputs")
+        digests = {k: h5_digest(f[k]) for k in names}
+    if aborted or names != sorted(gname(*k) for k in done):
+        # (this is what the failure-free run of crash_case judges; a restart from such a file would say nothing)
+        raise RuntimeError("source run for restarts did not complete as scheduled: %s" % names)
+    H.sources[lay] = (fname, {gname(c, n, lab): ob for (_i, c, n, lab, ob) in writes}, digests)
+    return H.sources[lay]
+
+
+def restart_case(rec, H, lay, start, point):
+    """Restart from the .h5 of a completed run at `start`: the new file holds the source's earlier steps unchanged, then the new nodes."""
+    import h5py
+
+    from armi.bookkeeping.db.database import Database
+    from vlib import hooks, obs
+
+    ncyc, bsteps, coupled = lay
+    w = {"layout": {"cycles": ncyc, "burnSteps": bsteps, "tightCoupling": coupled}, "restart-at": gname(*start), "failure": point}
+    try:
+        src, srcstates, srcdigests = restart_source(rec, H, lay)
+    except Exception as e:
+        rec.crash("B/restart/source-run", e, w)
+        return
+    H.n += 1
+    title = "restart%d" % H.n
+    fname = title + ".h5"
+    nprep = hooks.HITS["DatabaseInterface.prepRestartRun"]
+    try:
+        aborted, writes = run_once(H, lay, point, title, restart=(src, start[0], start[1]))
+    except Exception as e:
+        rec.crash("B/restart/run", e, w)
+        _rm(fname)
+        return
+    if hooks.HITS["DatabaseInterface.prepRestartRun"] != nprep + 1:
+        rec.violation("monitor/restart-did-not-go-through-prepRestartRun", "prepRestartRun ran %d times in a restart run" % (hooks.HITS["DatabaseInterface.prepRestartRun"] - nprep), w)
+    if point is None:
+        rec.hit("B.restart-complete")
+        if aborted:
+            rec.violation("B/harness-unexpected-abort", "failure-free restart run aborted", w)
+    else:
+        rec.hit("B.restart-with-failure")
+        if not aborted:
+            rec.violation("B/harness-failure-not-reached", "the failure point %s was never reached in the restart run (log %s)" % (point, STATE["log"][-4:]), w)
+            _rm(fname)
+            return
+    # independent schedule: the source's steps before the restart point, then every node from the restart point on
+    srcdone, _c = expected_groups(ncyc, bsteps, coupled, None)
+    merged = [k for k in srcdone if (k[0], k[1]) < tuple(start)]
+    newnodes = [(c, n, "") for c in range(ncyc) for n in range(bsteps + 1) if (c, n) >= tuple(start)]
+    if point is None:
+        done, err = merged + newnodes + [(ncyc - 1, bsteps, "EOL")], None
+    else:
+        # the three failure points used: right after the merge (BOL, before the database interface) and before/after the database
+        # interface at the first node (with tight coupling the node is only written after the coupled iterations, i.e. not yet)
+        first_written = point[0] == "EveryNode" and point[1] == "post" and not coupled
+        done, err = merged + (newnodes[:1] if first_written else []), (start[0], start[1], "error")
+    exp = sorted(gname(*k) for k in done + ([err] if err else []))
+    try:
+        if not os.path.exists(fname):
+            rec.violation("B/restart/no-file-in-working-directory", "after the restart run no %s in the working directory" % fname, w)
+            return
+        with h5py.File(fname, "r") as f:
+            names = sorted(k for k in f.keys() if k != "inputs")
+            flag = bool(f.attrs["successfulCompletion"])
+            for k in merged:
+                nm = gname(*k)
+                if nm in names:
+                    rec.hit("B.restart.merged-group-compared")
+                    d = h5_digest(f[nm])
+                    if d != srcdigests[nm]:
+                        bad = sorted(p_ for p_ in set(d) | set(srcdigests[nm]) if d.get(p_) != srcdigests[nm].get(p_))
+                        rec.violation("B/restart/merged-snapshot-changed", "group %s of the restart file differs from the source's at %s" % (nm, bad[:6]), w)
+        if exp != names:
+            missing = sorted(set(exp) - set(names))
+            extra = sorted(set(names) - set(exp))
+            mnames = set(gname(*k) for k in merged)
+            kind = ("missing-merged-step" if any(m in mnames for m in missing) else "missing-error-snapshot" if any(m.endswith("error") for m in missing)
+                    else "missing-completed-snapshot" if missing else "unexpected-snapshot")
+            rec.violation("B/restart/snapshots/%s" % kind, "restart at %s: file holds %s; expected the source's steps before the restart point + the new ones: %s (missing %s, extra %s)"
+                          % (gname(*start), names, exp, missing, extra), w)
+        if flag != (point is None):
+            rec.violation("B/restart/successfulCompletion-flag/%s" % ("aborted-run-marked-successful" if point else "completed-run-not-marked-successful"),
+                          "successfulCompletion=%s after %s" % (flag, "failure at %s" % (point,) if point else "a complete restart run"), w)
+        bywrite = {gname(c, n, lab): ob for (_i, c, n, lab, ob) in writes}
+        with Database(fname, "r") as db:
+            for k in done + ([err] if err else []):
+                nm = gname(*k)
+                if nm not in names:
+                    continue
+                rec.hit("B.snapshot-compared")
+                r2 = db.load(k[0], k[1], statePointName=k[2] or None)
+                r2.sort()
+                o2 = obs.obs(r2, derived=False)
+                if k in merged:
+                    ref, what = srcstates.get(nm), "merged-snapshot-differs-from-state-recorded-in-the-source-run"
+                    if ref is not None:
+                        # by design a loaded Reactor is named after the case title of the settings it is loaded with ("R-<title>"; the
+                        # name is not stored), and the restart case must have another title than its source
+                        ref = [dict(ref[0], name=o2[0]["name"])] + ref[1:]
+                elif k[2] == "error":
+                    ref, what = STATE["at_failure"], "error-snapshot-differs-from-recorded-state"
+                else:
+                    ref, what = bywrite.get(nm), "snapshot-differs-from-recorded-state"
+                if ref is None:
+                    rec.violation("monitor/no-recorded-state-for-snapshot", "no recorded state for %s" % nm, w)
+                    continue
+                cmp_obs(rec, "B/restart/%s" % what, ref, o2, dict(w, snapshot=nm), ignore=("minutesSinceStart",))
+    except Exception as e:
+        rec.crash("B/restart/inspect-file", e, w)
+    finally:
+        _rm(fname)
+    rec.case(["B-restart", lay, start, point], sample=dict(w, expected=exp) if point is None and start == (1, 1) else None)
